@@ -25,7 +25,7 @@ DTYPES = ("float32", "float64", "uint8")
 
 def REQUIRED(tier):
     return ["running_filter", "running:w>n", "running:even_w", "downsample_1d", "downsample_1d:factor==n", "downsample_2d", "downsample_2d_flat", "kernel_2d_flat",
-            "kernel_parallel", "overflow_probe", "detrend", "deredden", "ts_downsample", "block_downsample", "canary_audits", "input_unchanged_checks"]
+            "kernel_parallel", "overflow_probe", "detrend", "deredden", "ts_downsample", "block_downsample", "canary_audits", "input_unchanged_checks", "deredden_exact_after_fast"]
 
 
 def EXHAUSTIVE(tier):
@@ -347,6 +347,12 @@ def _compose(case, ctx):
                 ctx.evaluated(); ctx.count("deredden")
                 one = {"kind": "compose", "seed": case["seed"], "n": n, "method": method, "window_s": wsec}
                 try:
+                    if w >= 202:   # the approximate variant is asked for first on the same object: the exact one must not inherit its answer
+                        try:
+                            ts.deredden(method=method, window=wsec, fast=True)
+                            ctx.count("deredden_exact_after_fast")
+                        except ValueError:
+                            ctx.count("deredden_fast_refused")   # the approximate variant refuses series shorter than its decimation factor
                     got = np.asarray(ts.deredden(method=method, window=wsec).data, dtype=np.float64)
                     want = x64 - refmodels.running_filter_ref(x64, w, method)
                     if got.shape != (n,) or not _close(got, want, np.abs(x64).max(), w):
